@@ -378,6 +378,20 @@ pub fn gen_op<H: HX>(rng: &mut Rng, q: &AnyQ<H>, pf: &Profile) -> Op {
             "fresh" => Op::Fresh(rng.below(7) as u8, *rng.pick(&[0u64, 0, 1, 5, 64])),
             "dbg" => Op::Dbg,
             "deser_unit" => Op::DeserUnit,
+            "deser_hint" => {
+                let n = rng.below(8);
+                // announced length: honest, too small, too large, absurd (the allocation must not follow it)
+                let hint = match rng.below(8) {
+                    0 | 1 => n,
+                    2 => rng.below(n + 1),
+                    3 => n + rng.below(50),
+                    4 => 5000 + rng.below(100_000),
+                    5 => 1 << 40,
+                    6 => (1 << 61) + 3,
+                    _ => u64::MAX,
+                };
+                Op::DeserHint(hint, gen_pairs(rng, q, pf, n))
+            }
             "deser_bad" => {
                 let n = rng.below(5);
                 let v = rng.below(12) as u8;
@@ -401,7 +415,7 @@ pub fn core_weights() -> Vec<(&'static str, u32)> {
         ("iter_mut", 15), ("extend", 15), ("append", 8), ("convert", 8), ("clear", 2), ("drain", 3),
         ("from_vec", 3), ("from_iter", 3), ("len", 15), ("sorted_vec", 8), ("sorted_iter", 6), ("iter", 6),
         ("into_iter", 3), ("into_vec", 3), ("eq", 5), ("clone", 5), ("serde_rt", 3), ("deser", 2), ("capacity", 10),
-        ("fresh", 2), ("dbg", 5), ("deser_unit", 1), ("deser_bad", 2), ("ser_fail", 2),
+        ("fresh", 2), ("dbg", 5), ("deser_unit", 1), ("deser_bad", 2), ("ser_fail", 2), ("deser_hint", 2),
     ]
 }
 
